@@ -44,11 +44,76 @@ def entry_info(t):
     return m.group(1), int(m.group(2)), m.group(3) == 'ActiveEntry'
 
 
-def inline_all_but(names):
+def entry_role(f):
+    """'writer' | 'reader' | 'sizer' for members of the table encoder that operate on ONE entry - recognised by signature
+    (const Entry<T,Id,Tag>& [, Writer*] / Entry<T,Id,Tag>*, Reader*), not by name; every other member is a helper
+    whose decomposition is free to change and is inlined"""
+    if f is None or f.get('rect') != 'nop::Encoding' or f.get('file') != 'nop/base/table.h':
+        return None
+    ps = f.get('params') or []
+    if not ps or entry_info(ps[0]['t']) is None:
+        return None
+    if len(ps) == 1:
+        return 'sizer'
+    if len(ps) == 2:
+        return 'reader' if ps[0]['t'].rstrip().endswith('*') else 'writer'
+    return None
+
+
+def inline_helpers(root, keep_roles=('writer', 'reader', 'sizer')):
+    """inline the helpers of the root's own table encoder (a nested table's encoder is a different record and stays a call)"""
+    rec = root.get('rec')
+
     def f(callee, call):
-        return callee.get('rect') == 'nop::Encoding' and callee['file'] == 'nop/base/table.h' and callee['n'] not in names and \
-            callee['n'] not in ('Read', 'Write', 'Prefix', 'Match')
+        return callee.get('rect') == 'nop::Encoding' and callee['file'] == 'nop/base/table.h' and callee.get('rec') == rec and \
+            callee['n'] not in ('Read', 'Write', 'Prefix', 'Match') and entry_role(callee) not in keep_roles
     return f
+
+
+def is_bounded(e):
+    """the object / argument expression denotes a BoundedReader or BoundedWriter (by its type, not its name)"""
+    x = e
+    for _ in range(6):
+        if not isinstance(x, dict):
+            return False
+        t = x.get('t') or ''
+        if 'nop::BoundedReader<' in t or 'nop::BoundedWriter<' in t:
+            return True
+        x = x.get('e') or x.get('b')
+    return False
+
+
+class _EmptyObs:
+    observers = ('empty',)
+
+
+def reseat_leaves_value(db, fn, call):
+    """abstract execution (nopsa/absx.py) of the re-seating assignment `*entry = <source>` of an entry reader, starting from an
+    empty entry: returns the entry's empty() afterwards.  The source expression and the resolved operator= overload are the
+    ones of this instantiation, so an entry whose value type is itself an Optional is decided on its own overload set."""
+    from . import absx, tsrules
+    callee = db.callee(fn, call)
+    if callee is None or callee.get('rec') not in db.records:
+        raise absx.Unsupported('re-seat is not a resolved member assignment')
+    recq = callee['rec']
+    ex = tsrules.Explorer(db, recq, _EmptyObs(), recq)
+    w = ex.world()
+    w.declare(('A',), recq)
+    dctor = [f for f in ex.fns if f.get('ctor') and f.get('defaultctor') and not f['params'] and ('body' in f or f.get('inits'))]
+    if not dctor:
+        raise absx.Unsupported('no default constructor instance of ' + recq)
+    it = absx.Interp(w)
+    it.run(dctor[0], ('A',), [], None)
+    if ex.observe(w, 'A') != (1,):
+        raise absx.Unsupported('a default-constructed entry does not report empty')
+    fr = absx.Frame(fn, None)
+    fr.env[fn['params'][0]['id']] = absx.Ptr(('A',))
+    it.ev(call, fr)
+    return ex.observe(w, 'A')[0], list(w.problems)
+
+
+def entry_fns(fns, role):
+    return [f for f in fns if entry_role(f) == role]
 
 
 def declared_entries(db, fns):
@@ -108,7 +173,7 @@ def rules(chk, db, want, prefix=''):
             for f in pick(fns, 'WritePayload')[:1]:
                 where = facts.site(f) + ' <%s>' % short
                 try:
-                    paths = symx.paths_of(db, f, inline_all_but({'WriteEntry'}))
+                    paths = symx.paths_of(db, f, inline_helpers(f))
                 except symx.Unsupported as e:
                     chk.unanalysable(R('TW'), where, str(e))
                     continue
@@ -119,13 +184,13 @@ def rules(chk, db, want, prefix=''):
                     why.append('no successful path')
                 else:
                     v = [it for it in encrules.io_view(full) if it[0] == 'ENC']
-                    calls = [e for e in full.events if e.kind == 'call' and e.name == 'WriteEntry']
+                    calls = [e for e in full.events if e.kind == 'call' and entry_role(e.callee) == 'writer']
                     order = []
                     last_resolve = None
                     for e in full.events:
                         if e.kind == 'call' and e.name == 'Resolve':
                             last_resolve = encrules.member_id(getattr(e, 'q', ''))
-                        elif e.kind == 'call' and e.name == 'WriteEntry':
+                        elif e.kind == 'call' and entry_role(e.callee) == 'writer':
                             order.append(last_resolve)
                     if order != [d[0] for d in decl]:
                         why.append('entries written in order %s, declared %s' % (order, [d[0] for d in decl]))
@@ -148,14 +213,14 @@ def rules(chk, db, want, prefix=''):
                 pass
         if 'TE' in want:
             seen = set()
-            for f in pick(fns, 'WriteEntry'):
+            for f in sorted(entry_fns(fns, 'writer'), key=lambda g: 0 if 'nop::BufferWriter' in ' '.join(g.get('targs') or []) else 1):
                 info = entry_info(f['params'][0]['t'])
                 key = (f['file'], f['pat']['l'], f['params'][0]['t'])
                 if info is None or key in seen:
                     continue
                 seen.add(key)
                 where = facts.site(f) + ' <%s id %d>' % (short, info[1])
-                paths = symx.paths_of(db, f, lambda c, e: False)
+                paths = symx.paths_of(db, f, inline_helpers(f))
                 why = []
                 if not info[2]:
                     if any(p.events for p in paths) or not all(encrules.is_success(p) for p in paths):
@@ -186,7 +251,7 @@ def rules(chk, db, want, prefix=''):
                             why.append('declared size %s is not Encoding<T>::Size(value) as SizeType' % szsym)
                         if len(frame.args) != 2 or repr(frame.args[1]) != szsym:
                             why.append('frame limit %s differs from the declared size %s' % ([repr(a) for a in frame.args], szsym))
-                        if 'bounded' not in repr(w_val.args[1]):
+                        if not is_bounded(w_val.expr['args'][1]):
                             why.append('value is not written through the bounded writer')
                         if not (isinstance(p.ret, StatusVal) and p.ret.kind == 'call' and p.events[p.ret.arg] is pad):
                             why.append('WritePadding status is not what is returned')
@@ -196,14 +261,14 @@ def rules(chk, db, want, prefix=''):
                            '; '.join(sorted(set(why))) if why else 'written iff non-empty: id, size = Size(value) = frame limit, value, padding'),
                            function=ir.fn_label(f))
             seen = set()
-            for f in pick(fns, 'Size', lambda g: len(g['params']) == 1 and entry_info(g['params'][0]['t']) is not None):
+            for f in entry_fns(fns, 'sizer'):
                 info = entry_info(f['params'][0]['t'])
                 key = f['params'][0]['t']
                 if key in seen:
                     continue
                 seen.add(key)
                 where = facts.site(f) + ' <%s id %d>' % (short, info[1])
-                paths = symx.paths_of(db, f, lambda c, e: False)
+                paths = symx.paths_of(db, f, inline_helpers(f))
                 why = []
                 if not info[2]:
                     if not all(symx.as_poly(p.ret) == Poly.const(0) for p in paths):
@@ -229,22 +294,27 @@ def rules(chk, db, want, prefix=''):
                             why.append('entry size is %r, expected Size(id) + Size(size) + size' % r)
                 chk.decide(not why, R('TE'), where, 'Size(entry <%s id %d %s>): %s' % (short, info[1], 'active' if info[2] else 'deleted',
                            '; '.join(sorted(set(why))) if why else '0 when empty/deleted, else Size(id) + Size(size) + size'), function=ir.fn_label(f))
-        # ---------------- read side
+        # ---------------- read side: one root (ReadPayload) with every helper inlined except the per-entry readers, so
+        # the decomposition into ReadEntries / ReadEntryForId / SkipEntry (or any other) does not matter
         for f in pick(fns, 'ReadPayload')[:1]:
             where = facts.site(f) + ' <%s>' % short
             try:
-                paths = symx.paths_of(db, f, inline_all_but({'ReadEntries'}))
+                paths = symx.paths_of(db, f, inline_helpers(f))
             except symx.Unsupported as e:
                 chk.unanalysable(R('TC'), where, str(e))
                 continue
             succ = [p for p in paths if encrules.is_success(p)]
+            views = {id(p): encrules.io_view(p) for p in paths}
+
+            def encs(p):
+                return [it for it in views[id(p)] if it[0] == 'ENC']
             if 'TC' in want:
                 why = []
                 for p in paths:
                     ev = [e for e in p.events if e.kind == 'call']
-                    first_io = next((i for i, e in enumerate(ev) if encrules.enc_type(e) is not None or e.name == 'ReadEntries'), len(ev))
+                    first_read = encs(p)[0][5] if encs(p) else None
+                    first_io = ev.index(first_read) if first_read in ev else len(ev)
                     clears = [e for e in ev[:first_io] if e.name == 'clear']
-                    cleared = sorted(re.sub(r'#\d+', '', e.obj) for e in clears)
                     resolves = [encrules.member_id(getattr(e, 'q', '')) for e in ev[:first_io] if e.name == 'Resolve']
                     if len(clears) != len(decl) or sorted(set(resolves)) != sorted(d[0] for d in decl):
                         why.append('%d of %d declared entries are cleared before reading (%s)' % (len(set(resolves)) if len(clears) == len(resolves) else len(clears), len(decl), sorted(set(resolves))))
@@ -253,109 +323,113 @@ def rules(chk, db, want, prefix=''):
             if 'TH' in want:
                 why = []
                 for p in succ:
-                    v = [it for it in encrules.io_view(p) if it[0] == 'ENC']
-                    if len(v) != 2 or v[0][1] != 'unsigned long' or v[1][1] != 'unsigned long':
-                        why.append('expected hash (uint64) then count (SizeType)')
+                    v = encs(p)
+                    if len(v) < 2 or v[0][1] != 'unsigned long' or v[1][1] != 'unsigned long' or v[0][5].in_loop or v[1][5].in_loop:
+                        why.append('expected hash (uint64) then count (SizeType) before the entries')
                         continue
                     h = encrules.len_atom(v[0])
-                    eq = [c for c, s in p.conds if isinstance(c, Cmp) and h is not None and (c if s else c.negated()).op == '==' and
+                    eq = [c for c, s2 in p.conds if isinstance(c, Cmp) and h is not None and (c if s2 else c.negated()).op == '==' and
                           repr(h) in repr(c)]
                     if not eq:
                         why.append('entries are read without the hash having been compared')
-                    cnt = encrules.len_atom(v[1])
-                    re_calls = [e for e in p.events if e.kind == 'call' and e.name == 'ReadEntries']
-                    if len(re_calls) != 1 or cnt is None or repr(re_calls[0].args[1]) != repr(cnt):
-                        why.append('ReadEntries does not receive the decoded count')
                 bad = [p for p in paths if encrules.err_of(p) == 'InvalidTableHash']
-                if not bad or any(len([it for it in encrules.io_view(p) if it[0] == 'ENC']) != 1 for p in bad):
+                if not bad or any(len(encs(p)) != 1 for p in bad):
                     why.append('hash mismatch is not rejected with InvalidTableHash right after the hash is read')
                 chk.decide(not why, R('TH'), where, 'Encoding<%s>::ReadPayload: %s' % (short, '; '.join(sorted(set(why))) if why else
                            'hash validated (InvalidTableHash) before the count and entries are read'), function=ir.fn_label(f))
-        if 'TL' in want:
-            for f in pick(fns, 'ReadEntries')[:1]:
-                where = facts.site(f) + ' <%s>' % short
-                ok, msg = encrules.loop_bound(f, Poly.atom('p:count'), None, db=db)
-                why = [] if ok else [msg.replace("d:", "")]
-                if not ok:
-                    # the bound is the *parameter* count
-                    loops = [y for y in ir.walk(f['body']) if y.get('k') == 'for']
-                    if len(loops) == 1:
-                        c = ir.strip_all_casts(loops[0]['cond'])
-                        rhs = ir.strip_all_casts(c.get('r', {})) if c.get('k') == 'bin' else {}
-                        if c.get('op') == '<' and rhs.get('k') == 'ref' and rhs.get('dk') == 'param' and rhs.get('n') == f['params'][1]['n']:
-                            iv = loops[0]['init']['vars'][0]
-                            inc = ir.strip_all_casts(loops[0]['inc'])
-                            if ir.const_of(ir.strip_init(iv.get('init') or {})) == 0 and inc.get('k') == 'un' and inc['op'] == '++':
-                                why = []
-                paths = symx.paths_of(db, f, lambda c, e: False)
-                full = max([p for p in paths if encrules.is_success(p)], key=lambda p: len(p.events))
-                ev = [e for e in full.events if e.kind == 'call']
-                seq = [(e.name, encrules.enc_type(e)) for e in ev]
-                if [s[0] for s in seq] != ['Read', 'ReadEntryForId'] or seq[0][1] != 'unsigned long':
-                    why.append('iteration is %s, expected id (uint64) then ReadEntryForId' % seq)
-                else:
-                    idsym = encrules.len_atom(('ENC', None, None, None, None, ev[0]))
-                    if idsym is None or repr(ev[1].args[1]) != repr(idsym):
-                        why.append('ReadEntryForId does not receive the decoded id')
-                chk.decide(not why, R('TL'), where, 'ReadEntries<%s>: %s' % (short, '; '.join(why) if why else 'for i in [0, count): id, ReadEntryForId(id)'),
-                           function=ir.fn_label(f))
-        if 'TD' in want:
-            top = [f for f in pick(fns, 'ReadEntryForId') if re.search(r'Index<%d>' % len(decl), f['params'][3]['t'])]
-            for f in top[:1]:
-                where = facts.site(f) + ' <%s>' % short
-                try:
-                    paths = symx.paths_of(db, f, inline_all_but({'ReadEntry', 'SkipEntry'}))
-                except symx.Unsupported as e:
-                    chk.unanalysable(R('TD'), where, str(e))
-                    continue
+            looped = [p for p in paths if any(it[5].in_loop for it in views[id(p)])]
+            if 'TL' in want:
                 why = []
+                full = max([p for p in succ if p in looped] or succ or paths, key=lambda p: len(p.events))
+                v = encs(full)
+                cnt = encrules.len_atom(v[1]) if len(v) >= 2 else None
+                if cnt is None:
+                    why.append('no decoded entry count')
+                else:
+                    ok, msg = encrules.loop_bound(f, cnt, full, db=db)
+                    if not ok:
+                        why.append(msg.replace('d:', ''))
+                for p in looped:
+                    inl = [it for it in views[id(p)] if it[5].in_loop]
+                    if not inl or inl[0][0] != 'ENC' or inl[0][1] != 'unsigned long' or inl[0][2] != 'Read':
+                        why.append('an iteration does not start by decoding the entry id (uint64)')
+                chk.decide(not why, R('TL'), where, 'Encoding<%s>::ReadPayload: %s' % (short, '; '.join(sorted(set(why))) if why else
+                           'for i in [0, count): decode an id, then handle that entry'), function=ir.fn_label(f))
+            if 'TD' in want or 'TS' in want:
+                why = []
+                why_s = []
                 reached = {}
                 skips = 0
-                for p in paths:
-                    ev = [e for e in p.events if e.kind == 'call' and e.name in ('ReadEntry', 'SkipEntry')]
-                    eqs = [(c if s else c.negated()) for c, s in p.conds if isinstance(c, Cmp)]
+                for p in looped:
+                    inl = [it for it in views[id(p)] if it[5].in_loop]
+                    if not inl or inl[0][0] != 'ENC':
+                        continue
+                    id_ev = inl[0][5]
+                    idsym = encrules.len_atom(inl[0])
+                    if p.status_facts().get(p.events.index(id_ev)) is False or idsym is None:
+                        continue            # the id itself could not be read: nothing to dispatch
+                    idname = repr(idsym)
+                    after = [e for e in p.events[p.events.index(id_ev) + 1:] if e.kind == 'call' and e.in_loop]
+                    ops = [e for e in after if entry_role(e.callee) == 'reader']
+                    raw = [it for it in inl[1:] if it[0] in ('ENC', 'RW', 'RAW', 'BYTE')]
+                    eqs = [(c if s2 else c.negated()) for c, s2 in p.conds if isinstance(c, Cmp) and idname in repr(c)]
                     pos = [c for c in eqs if c.op == '==']
                     neg = [c for c in eqs if c.op == '!=']
-                    if len(ev) != 1:
-                        why.append('path with %d entry operations' % len(ev))
-                        continue
-                    if ev[0].name == 'SkipEntry':
-                        skips += 1
-                        negids = sorted(int(-c.p.const_value()) if c.p.t.get(('p:id',), 0) == 1 else int(c.p.const_value()) for c in neg)
-                        if negids != sorted(ids):
-                            why.append('skip reached after testing ids %s, declared ids are %s' % (negids, sorted(ids)))
-                    else:
+
+                    def idconst(c):
+                        return int(-c.p.const_value()) if c.p.t.get((idname,), 0) == 1 else int(c.p.const_value())
+                    if len(ops) == 1 and not raw:
                         if len(pos) != 1:
                             why.append('entry read without an id match')
                             continue
-                        c = pos[0]
-                        k = int(-c.p.const_value()) if c.p.t.get(('p:id',), 0) == 1 else int(c.p.const_value())
-                        cal = ev[0].callee
-                        info = entry_info(cal['params'][0]['t']) if cal else None
+                        k = idconst(pos[0])
+                        info = entry_info(ops[0].callee['params'][0]['t'])
                         if info is None or info[1] != k:
                             why.append('id %d dispatches to the entry declared with id %s' % (k, info[1] if info else '?'))
                         reached[k] = True
-                if skips != 1:
-                    why.append('%d skip paths' % skips)
+                    elif not ops and raw:
+                        # unknown id: the entry's size is decoded and exactly that many bytes are skipped
+                        skips += 1
+                        negids = sorted(idconst(c) for c in neg)
+                        if negids != sorted(ids):
+                            why.append('skip reached after testing ids %s, declared ids are %s' % (negids, sorted(ids)))
+                        names = [(it[0], it[1] if it[0] == 'RW' else it[2]) for it in raw]
+                        size_read = raw[0] if raw[0][0] == 'ENC' and raw[0][1] == 'unsigned long' else None
+                        size_ok = size_read is not None and p.status_facts().get(raw[0][4]) is not False
+                        if size_read is None:
+                            why_s.append('unknown entry: size not decoded as SizeType first (%s)' % names)
+                        elif size_ok:
+                            szsym = encrules.len_atom(size_read)
+                            sk = [it for it in raw[1:] if it[0] == 'RW' and it[1] == 'Skip']
+                            if len(raw) != 2 or len(sk) != 1 or szsym is None or repr(sk[0][3][0]) != repr(szsym):
+                                why_s.append('unknown entry: expected Skip(decoded size), found %s' % names[1:])
+                    else:
+                        why.append('path with %d entry operations and %d raw transfers after the id' % (len(ops), len(raw)))
+                if skips < 1:
+                    why.append('no path skips an unknown id')
                 if sorted(reached) != sorted(ids):
                     why.append('ids dispatched: %s, declared: %s' % (sorted(reached), sorted(ids)))
-                chk.decide(not why, R('TD'), where, 'ReadEntryForId<%s>: %s' % (short, '; '.join(sorted(set(why))) if why else
-                           'ids %s each reach their own entry, anything else is skipped' % sorted(ids)), function=ir.fn_label(f))
+                if 'TD' in want:
+                    chk.decide(not why, R('TD'), where, 'Encoding<%s>::ReadPayload: %s' % (short, '; '.join(sorted(set(why))) if why else
+                               'ids %s each reach their own entry, anything else is skipped' % sorted(ids)), function=ir.fn_label(f))
+                if 'TS' in want:
+                    chk.decide(not why_s and skips >= 1, R('TS'), where, 'Encoding<%s>::ReadPayload, unknown id: %s' % (short, '; '.join(sorted(set(why_s))) if why_s else
+                               'size read, Skip(size)'), function=ir.fn_label(f))
         if 'TR' in want:
             seen = set()
-            for f in pick(fns, 'ReadEntry'):
+            for f in sorted(entry_fns(fns, 'reader'), key=lambda g: 0 if 'nop::BufferReader' in ' '.join(g.get('targs') or []) else 1):
                 info = entry_info(f['params'][0]['t'])
                 key = f['params'][0]['t']
                 if info is None or key in seen or not info[2]:
                     continue
                 seen.add(key)
                 where = facts.site(f) + ' <%s id %d>' % (short, info[1])
-                paths = symx.paths_of(db, f, lambda c, e: False)
+                paths = symx.paths_of(db, f, inline_helpers(f))
                 why = []
                 dups = [p for p in paths if encrules.err_of(p) == 'DuplicateTableEntry']
                 if len(dups) != 1 or [e for e in dups[0].events if e.kind == 'call' and e.name not in ('empty', 'operator bool')]:
                     why.append('a non-empty entry is not rejected with DuplicateTableEntry before anything is read')
-                elif not any('.empty()' in repr(c) and s is False or ('operator bool' in repr(c) and s is True) for c, s in dups[0].conds):
+                elif not any('.empty()' in repr(c) and s2 is False or ('operator bool' in repr(c) and s2 is True) for c, s2 in dups[0].conds):
                     why.append('DuplicateTableEntry is not conditioned on the entry already holding a value')
                 succ = [p for p in paths if encrules.is_success(p)]
                 for p in succ:
@@ -373,21 +447,32 @@ def rules(chk, db, want, prefix=''):
                         why.append('entry size not decoded as SizeType')
                     elif len(frame.args) != 2 or repr(frame.args[1]) != repr(szsym):
                         why.append('frame limit %s is not the decoded size' % [repr(a) for a in frame.args])
-                    if 'bounded' not in repr(r_val.args[1]):
+                    if not is_bounded(r_val.expr['args'][1]):
                         why.append('value is not read through the bounded reader')
+                    try:
+                        from . import absx
+                        still_empty, probs = reseat_leaves_value(db, f, asg.expr)
+                        if still_empty != 0:
+                            why.append('the re-seating assignment leaves the entry EMPTY for this value type (resolved overload %s): the value is then '
+                                       'decoded into dead storage and the entry reads back empty' % ir.fn_label(db.callee(f, asg.expr))[:80])
+                        elif probs:
+                            why.append('re-seating: %s' % '; '.join('%s [%s]' % pr for pr in probs[:2]))
+                    except absx.Unsupported as e:
+                        chk.unanalysable(R('TR'), where, 're-seating assignment cannot be executed abstractly: %s' % e)
                     if not (isinstance(p.ret, StatusVal) and p.ret.kind == 'call' and p.events[p.ret.arg] is pad):
                         why.append('ReadPadding status is not what is returned')
                 chk.decide(not why, R('TR'), where, 'ReadEntry<%s id %d>: %s' % (short, info[1], '; '.join(sorted(set(why))) if why else
                            'duplicate check, size, re-seat, frame(size), value, padding'), function=ir.fn_label(f))
         if 'TS' in want:
             seen = set()
-            for f in pick(fns, 'SkipEntry') + [g for g in pick(fns, 'ReadEntry') if (entry_info(g['params'][0]['t']) or (0, 0, True))[2] is False]:
-                key = (f['file'], f['pat']['l'])
+            for f in [g for g in entry_fns(fns, 'reader') if (entry_info(g['params'][0]['t']) or (0, 0, True))[2] is False]:
+                key = (f['file'], f['pat']['l'], f['params'][0]['t'])
                 if key in seen:
                     continue
                 seen.add(key)
-                where = facts.site(f) + ' <%s>' % short
-                paths = symx.paths_of(db, f, inline_all_but(set()))
+                info = entry_info(f['params'][0]['t'])
+                where = facts.site(f) + ' <%s id %d deleted>' % (short, info[1])
+                paths = symx.paths_of(db, f, inline_helpers(f))
                 why = []
                 succ = [p for p in paths if encrules.is_success(p)]
                 for p in succ:
@@ -402,7 +487,7 @@ def rules(chk, db, want, prefix=''):
                         why.append('Skip status is not what is returned')
                 if not succ:
                     why.append('no successful path')
-                chk.decide(not why, R('TS'), where, '%s<%s>: %s' % (f['n'], short, '; '.join(sorted(set(why))) if why else 'size read, Skip(size), status returned'),
+                chk.decide(not why, R('TS'), where, 'deleted entry <%s id %d>: %s' % (short, info[1], '; '.join(sorted(set(why))) if why else 'size read, Skip(size), status returned'),
                            function=ir.fn_label(f))
 
 
